@@ -369,6 +369,9 @@ def draw(rng):
     if kind == "cert" and rng.random() < 0.3:
         req_cert = True
         ckey = rng.choice(CKEYS + [None])
+    elif kind == "cert" and rng.random() < 0.15:
+        # the client holds a certificate that nobody asks for
+        ckey = rng.choice(CKEYS)
     alpn_c = alpn_s = npn_c = npn_s = None
     if rng.random() < 0.3:
         alpn_c = rng.sample(PROTOS, rng.randint(1, 3))
